@@ -177,7 +177,7 @@ CLAIMED = {
  "C05": ("proof",
   "Lean 4 model of the context manager over regenerated limit functions: kill_exact / kill_monotone / no_step_after_kill theorems + level A/B correspondence on the real Runtime + Lua-level limit sweeps",
   "Props/C05.lean: limited_metered, kill_step_exact, kill_exact (killed iff L <= usage for every request list), kill_monotone, results_identical_when_not_killed, cpu_never_reaches_limit, kill_is_final, "
-  "no_step_after_kill; and for the repaired propagation (0426709, mirrored in Model.CallCtx: recorded resource + propagateTermination): limitless_bracket_cannot_absorb (every well-formed body), uninterceptable, kill_exact_nested, kill_exact_nested_from_root, kill_monotone_nested (programs of requests and ANY nesting of limit-less brackets: killed iff L <= used + cost, the refused request is the last event), child_with_own_limit_dies_alone; recover_sites_classified (regenerated instance: every recover() of runtime/ and lib/, listed by extract/recoversites on each run, is a hand-classified site of Model/RecoverExpect.lean — a new or edited recover site breaks it). Lua-level: the limit is also driven INTO every callback site (sort comparator, __lt/__index/__newindex/__call/__concat/__len/__eq/__tostring/__pairs, gsub / load callbacks, xpcall handlers, __close on normal and error exit, __gc at context exit and on collectgarbage, coroutine bodies) with a pcall around, and 12 scanning templates (%b, frontier, backtracking, plain find, gsub/gmatch) must be charged CPU above a lower bound in N. Model/Ctx.lean mirrors runtimecontextmanager.go operation by operation on top of the REGENERATED Generated.Resources (smallerLimit, atLimit, Remove, Merge, Dominates, flag/status constants); Model/CallCtx.lean is Thread.CallContext with the deferred pop and recover explicit. Level B compares the whole context stack (limits, used, status, due, flags of every Parent()) after every operation on a real *rt.Runtime over 36^3 exhaustive boundary histories, random histories incl. API abuse near 2^64 and random CallContext trees; level A re-checks the Spec.Quota relations on the implementation's own trace; Lua legs sweep limits around each generated program's own usage. The Lua leg checks killed iff L <= u, identical trace when not killed, killed trace is a prefix, used < L on generated programs "
+  "no_step_after_kill; and for the repaired propagation (0426709, mirrored in Model.CallCtx: recorded resource + propagateTermination): limitless_bracket_cannot_absorb (every well-formed body), uninterceptable, kill_exact_nested, kill_exact_nested_from_root, kill_monotone_nested (programs of requests and ANY nesting of limit-less brackets: killed iff L <= used + cost, the refused request is the last event), child_with_own_limit_dies_alone; recover_sites_classified (regenerated instance: every recover() of runtime/ and lib/, listed by extract/recoversites on each run, is a hand-classified site of Model/RecoverExpect.lean — a new or edited recover site breaks it). Lua-level: the limit is also driven INTO every callback site (sort comparator, __lt/__index/__newindex/__call/__concat/__len/__eq/__tostring/__pairs, gsub / load callbacks, xpcall handlers, __close on normal and error exit, __gc at context exit and on collectgarbage, coroutine bodies) with a pcall around, and 12 scanning templates (%b, frontier, backtracking, plain find, gsub/gmatch) must be charged CPU above a lower bound in N; 26 size-taking non-pattern calls (pack c<n>/x/z/s4, unpack, rep, table.concat, format, byte, move/insert/remove/sort, reverse/upper/lower, concat, utf8.*, load, gsub) must be charged CPU + memory >= work/8 and be killed under small limits (work_amplify); coroutine.close of a suspended coroutine (bare, in pcall, from a handler, from another coroutine, two handlers, inside a pcall frame) is one of the callback sites. The unmetered 'x' padding of string.pack found by this leg is repaired (a8c6452). Model/Ctx.lean mirrors runtimecontextmanager.go operation by operation on top of the REGENERATED Generated.Resources (smallerLimit, atLimit, Remove, Merge, Dominates, flag/status constants); Model/CallCtx.lean is Thread.CallContext with the deferred pop and recover explicit. Level B compares the whole context stack (limits, used, status, due, flags of every Parent()) after every operation on a real *rt.Runtime over 36^3 exhaustive boundary histories, random histories incl. API abuse near 2^64 and random CallContext trees; level A re-checks the Spec.Quota relations on the implementation's own trace; Lua legs sweep limits around each generated program's own usage. The Lua leg checks killed iff L <= u, identical trace when not killed, killed trace is a prefix, used < L on generated programs "
   "(pcall loops, coroutines, handlers) x ~40 limits each.",
   "Time limits, message handlers and coroutines are outside the model; 'real work between two counter increments is bounded' is sampled by amplification templates only (not proved). The interception of kills "
   "through pcall found by this check is repaired in /repo (0426709) and the repaired behaviour is proved (uninterceptable / kill_exact_nested) and swept at Lua level through pcall / xpcall / callcontext{} / coroutine wrappers; no known finding left.", "6/C05, 14/C05"),
@@ -185,12 +185,12 @@ CLAIMED = {
   "Lean 4 model of memory accounting over regenerated limit functions: never-reaches-limit / monotone / balanced-release theorems + level A/B correspondence + Lua-level limit sweeps and amplification templates",
   "Props/C06.lean: mem_never_reaches_limit, mem_kill_step_exact, mem_kill_monotone, limitless_bracket_cannot_absorb_mem (every well-formed body, no proviso since 52f8e49), recover_sites_classified (as C05), chargeCovers_iff, mem_kill_monotone_nested (two-run simulation: ANY program of memory requests, releases — also cascading ones — and limit-less brackets), mem_program_killed_by_memory, release_no_underflow_in_frame, release_unlimited_is_noop; for the cascading ReleaseMem of 8007e69 (mirrored as releaseStack): release_cascades_exactly, release_never_crashes_when_covered (crash iff every context down to the outermost is limited and together they hold less), release_uncovered_is_absorbed, release_never_crashes_from_fresh_runtime (any history, legal or not); require_release_paired (compile pipeline model after fcd5799: every path balanced); and the proved "
   "the former stale-limit witness as a passing example. Model/Ctx.lean mirrors runtimecontextmanager.go operation by operation on top of the REGENERATED Generated.Resources (smallerLimit, atLimit, Remove, Merge, Dominates, flag/status constants); Model/CallCtx.lean is Thread.CallContext with the deferred pop and recover explicit. Level B compares the whole context stack (limits, used, status, due, flags of every Parent()) after every operation on a real *rt.Runtime over 36^3 exhaustive boundary histories, random histories incl. API abuse near 2^64 and random CallContext trees; level A re-checks the Spec.Quota relations on the implementation's own trace; Lua legs sweep limits around each generated program's own usage. Amplification templates (rep, concat, unpack, char, format, pack, load, coroutine.create loops, table growth) x N up to 2^40 under 1 MiB with a TotalAlloc bound.",
-  "Real heap growth versus accounted memory is sampled (TotalAlloc under GOMEMLIMIT), not proved; the charge-site extractor of the plan is not built. Level A also checks, per allocating library call (25 templates incl. string.rep with long separators), accounted-memory growth >= size of the result; load() never lowers the accounted memory and a program of loads of comment-heavy sources plus live allocations is killed; load through reader functions with 1..9-byte pieces accounts what it buffers; the memory limit driven into every callback site is not catchable. One known finding: C06-CLOSE-IN-COROUTINE-CRASH (same root as C05-CLOSE-IN-COROUTINE-CRASH). Earlier findings (interception, cross-context release crash, double release, release race and stale inherited limit were found by this check and are repaired). An uncovered release is absorbed silently by the first context without memory limit (release_uncovered_is_absorbed).", "6/C06, 14/C06"),
+  "Real heap growth versus accounted memory is sampled (TotalAlloc under GOMEMLIMIT), not proved; the charge-site extractor of the plan is not built. Level A also checks, per allocating library call (25 templates incl. string.rep with long separators), accounted-memory growth >= size of the result (47 calls incl. gsub capture references, table/function replacements, format with many %s, concat chains, pack/unpack, coroutine stacks, table constructors from varargs); values kept alive in vararg frames / tables are accounted at >= 16 bytes each and such programs are killed under a limit; load() never lowers the accounted memory and a program of loads of comment-heavy sources plus live allocations is killed; load through reader functions with 1..9-byte pieces accounts what it buffers; the memory limit driven into every callback site is not catchable. One known finding: C06-CLOSE-IN-COROUTINE-CRASH (same root as C05-CLOSE-IN-COROUTINE-CRASH). Earlier findings (interception, cross-context release crash, double release, release race and stale inherited limit were found by this check and are repaired). An uncovered release is absorbed silently by the first context without memory limit (release_uncovered_is_absorbed).", "6/C06, 14/C06"),
  "C07": ("proof",
   "Lean 4 invariant + conservation theorems over all legal histories of the context stack and over all CallContext trees, on regenerated Remove/Merge/Dominates; level A/B correspondence on the real Runtime",
   "Props/C07.lean (24 theorems): push_hard_le_remaining, push_soft_le_hard, push_flags_superset, push_implied_flags, inv_initial/inv_preserved/inv_reachable (no hypothesis on amounts), used_lt_hard, "
   "child_within_parent, pop_charges_parent, pop_status, conservation(+_nested) under the explicit no-overflow hypothesis with a proved counterexample without it, due_iff, soft_limit_does_not_kill, "
-  "status_truthful, call_keeps_stack_aligned, call_from_root_returns_to_root (mutual induction over every CallContext tree), close_handlers_then_status / close_handlers_run_under_limits / close_handler_past_limit_kills (Model.CallCtx now carries the pending to-be-closed handlers of a call: they run in the context being left, before its status is set; tied at Lua level only — no API to push a to-be-closed value from the Go harness). Model/Ctx.lean mirrors runtimecontextmanager.go operation by operation on top of the REGENERATED Generated.Resources (smallerLimit, atLimit, Remove, Merge, Dominates, flag/status constants); Model/CallCtx.lean is Thread.CallContext with the deferred pop and recover explicit. Level B compares the whole context stack (limits, used, status, due, flags of every Parent()) after every operation on a real *rt.Runtime over 36^3 exhaustive boundary histories, random histories incl. API abuse near 2^64 and random CallContext trees; level A re-checks the Spec.Quota relations on the implementation's own trace; Lua legs sweep limits around each generated program's own usage.",
+  "status_truthful, call_keeps_stack_aligned, call_from_root_returns_to_root (mutual induction over every CallContext tree), foreign_panic_pops_before_repanic (threadClose and other non-termination panics: pop, then re-panic), close_handlers_then_status / close_handlers_run_under_limits / close_handler_past_limit_kills (Model.CallCtx now carries the pending to-be-closed handlers of a call: they run in the context being left, before its status is set; tied at Lua level only — no API to push a to-be-closed value from the Go harness). Model/Ctx.lean mirrors runtimecontextmanager.go operation by operation on top of the REGENERATED Generated.Resources (smallerLimit, atLimit, Remove, Merge, Dominates, flag/status constants); Model/CallCtx.lean is Thread.CallContext with the deferred pop and recover explicit. Level B compares the whole context stack (limits, used, status, due, flags of every Parent()) after every operation on a real *rt.Runtime over 36^3 exhaustive boundary histories, random histories incl. API abuse near 2^64 and random CallContext trees; level A re-checks the Spec.Quota relations on the implementation's own trace; Lua legs sweep limits around each generated program's own usage.",
   "Coroutines are outside the model: the context stack is runtime-wide, so a yield inside pcall leaves pcall's frame on top (recorded design-level defect C07-YIELD-IN-PCALL). Millis limits are not modelled.", "6/C07, 14/C07"),
  "C01": ("proof",
   "Lean 4 executable reference semantics of Lua 5.4 with machine-checked meta-theorems + whole-pipeline differential testing of golua against it",
